@@ -19,6 +19,15 @@ impl ECIESCiphertext {
     }
 
     pub(crate) fn from_bytes_impl(buffer: &[u8], has_pub_key: bool) -> Result<ECIESCiphertext, BSVErrors> {
+        // 4 magic bytes + optional 33 byte public key + 32 byte HMAC
+        let min_length = match has_pub_key {
+            true => PUB_KEY_END as usize + 32,
+            false => 4 + 32,
+        };
+        if buffer.len() < min_length {
+            return Err(BSVErrors::ECIESError(format!("Ciphertext is too short, expected at least {} bytes", min_length)));
+        }
+
         let pub_key = match has_pub_key {
             true => {
                 let pub_key_buf = &buffer[PUB_KEY_OFFSET as usize..PUB_KEY_END as usize];
